@@ -10,7 +10,7 @@ emit(shape, rotation, layout) -> (text, nodes): nodes in document order, each
 """
 
 SELECTORS = ['a', 'a:hover', 'a::before', '@media (min-width: 1px)', 'a[t="}"]', '.b > c', '&:hover', 'b:first-child a:hover',
-             'a:not(:hover)::after', 'a[t="\\"}{"]', 'a /* { ; } */ b']
+             'a:not(:hover)::after', 'a[t="\\"}{"]', 'a /* { ; } */ b', '::selection', ':root']
 DECLS = [('b', 'c'), ('b', 'c d'), ('$v', '1px'), ('--x', 'y'), ('b', '"x;y{}"'), ('b', 'url(a)'), ('b', 'c /* ; */ d'),
          ('b', '"\\";}:"'), ('b', "'\\'};' d"), ('b', 'url(http://x/y:z)'),
          ('$m', '(a: 1, b: (c: 2), d: 3)'), ('b', 'c /** ; **/ d')]
